@@ -7,32 +7,52 @@ ROOT = "/verif"
 
 
 def main():
+    """Default: a scratch worktree of /repo HEAD (VERIF_REPO), so that /repo itself is never touched and other runs are not disturbed;
+    --in-place applies the patch to /repo and restores it afterwards (git checkout -- .), as a user of the checks would."""
+    import os
+    import shutil
+    import tempfile
     sid = sys.argv[1]
-    checks = [a for a in sys.argv[2:] if not a.startswith("--")]
+    checks = [a for a in sys.argv[2:] if not a.startswith("--") and a not in ("quick", "thorough")]
     tier = "quick"
     if "--tier" in sys.argv:
         tier = sys.argv[sys.argv.index("--tier") + 1]
+    inplace = "--in-place" in sys.argv
     patch = "%s/seeded/%s/patch.diff" % (ROOT, sid)
-    dirty = subprocess.run(["git", "-C", "/repo", "status", "--porcelain"], capture_output=True, text=True).stdout.strip()
-    if dirty:
-        print("refusing: /repo is not clean:\n" + dirty)
-        return 2
-    r = subprocess.run(["git", "-C", "/repo", "apply", patch])
-    if r.returncode != 0:
-        print("patch does not apply")
-        return 2
+    env = dict(os.environ)
+    base = None
+    if inplace:
+        dirty = subprocess.run(["git", "-C", "/repo", "status", "--porcelain"], capture_output=True, text=True).stdout.strip()
+        if dirty:
+            print("refusing: /repo is not clean:\n" + dirty)
+            return 2
+        repo = "/repo"
+    else:
+        base = tempfile.mkdtemp(prefix="teaal-seedrun-")
+        repo = os.path.join(base, "repo")
+        if subprocess.run(["git", "-C", "/repo", "worktree", "add", "-q", "--detach", repo, "HEAD"]).returncode != 0:
+            return 2
+        env["VERIF_REPO"] = repo
+        env["VERIF_EVIDENCE_DIR"] = os.path.join(base, "evidence")
     results = {}
     try:
+        if subprocess.run(["git", "-C", repo, "apply", patch]).returncode != 0:
+            print("patch does not apply")
+            return 2
         for c in checks:
-            p = subprocess.run(["./check", c, "--tier", tier], cwd=ROOT, capture_output=True, text=True)
+            p = subprocess.run(["./check", c, "--tier", tier], cwd=ROOT, capture_output=True, text=True, env=env)
             tail = [l for l in p.stdout.splitlines() if l.startswith(("VIOLATION", "KNOWN-FINDING", "MACHINERY", c))]
             results[c] = p.returncode
             print("== %s exit %d" % (c, p.returncode))
             for l in tail[:4] + tail[-1:]:
                 print("   " + l[:220])
     finally:
-        subprocess.run(["git", "-C", "/repo", "checkout", "--", "."])
-        subprocess.run(["git", "-C", "/repo", "clean", "-fdq", "teaal"])
+        if inplace:
+            subprocess.run(["git", "-C", "/repo", "checkout", "--", "."])
+            subprocess.run(["git", "-C", "/repo", "clean", "-fdq", "teaal"])
+        else:
+            subprocess.run(["git", "-C", "/repo", "worktree", "remove", "--force", repo])
+            shutil.rmtree(base, ignore_errors=True)
     print("SUMMARY", sid, results)
     return 0
 
